@@ -43,24 +43,33 @@ def groupRulesSeq (fields : List (String × Y)) : Option (List Y) :=
 def groupRules (fields : List (String × Y)) : Option (List Y) :=
   if groupName fields ≠ "" then groupRulesSeq fields else none
 
-/-- what one element of a `groups` sequence contributes in relaxed mode -/
-def groupContribution (g : Y) : List Y :=
-  match g with
-  | .map _ _ fields => (match groupRules fields with | some rs => rs.filter Y.keeps | none => [])
-  | _ => []
+def keptOf (items : List Y) : List Y := items.filter Y.keeps
 
 mutual
-/-- `parseNode(node, parent, …)`: the nodes parseRule keeps, in order; `pk` is the parent key's value -/
+/-- `parseNode(node, parent, …)`: the nodes parseRule keeps, in order; `pk` is the parent key's value.
+    A sequence: its items that are rules first, then whatever is found below the items that are not (after fix a449106) -/
 def relaxed (pk : Option String) : Y → List Y
   | .scalar _ _ => []
   | .seq _ items =>
     if pk = some "groups" then relaxedGroups items
-    else items.filter Y.keeps
+    else keptOf items ++ nestedOf items
   | .map _ _ fields => relaxedFields fields
   | .doc children => relaxedDocs children
+/-- rules found below the items of a sequence that are not rules themselves -/
+def nestedOf : List Y → List Y
+  | [] => []
+  | x :: rest => (if x.keeps then [] else relaxed none x) ++ nestedOf rest
 def relaxedGroups : List Y → List Y
   | [] => []
-  | g :: rest => groupContribution g ++ relaxedGroups rest
+  | g :: rest =>
+    (match g with
+     | .map _ _ fields => if groupName fields ≠ "" then (lastRules fields).getD [] else []
+     | _ => []) ++ relaxedGroups rest
+/-- the contribution of the last `rules` key that holds a sequence (`tryParseGroup`: the last occurrence wins) -/
+def lastRules : List (String × Y) → Option (List Y)
+  | [] => none
+  | (k, v) :: rest =>
+    (lastRules rest).or (if k = "rules" then (match v with | .seq _ items => some (keptOf items ++ nestedOf items) | _ => none) else none)
 def relaxedFields : List (String × Y) → List Y
   | [] => []
   | (k, v) :: rest => relaxed (some k) v ++ relaxedFields rest
@@ -68,6 +77,15 @@ def relaxedDocs : List Y → List Y
   | [] => []
   | d :: rest => relaxed none d ++ relaxedDocs rest
 end
+
+/-- a sequence that is not a `groups` list -/
+def relaxedSeq (items : List Y) : List Y := keptOf items ++ nestedOf items
+
+/-- what one element of a `groups` sequence contributes in relaxed mode -/
+def groupContribution (g : Y) : List Y :=
+  match g with
+  | .map _ _ fields => (match groupRules fields with | some rs => relaxedSeq rs | none => [])
+  | _ => []
 
 /-- rule nodes of one strict group mapping: every item of every `rules` sequence, kept or not -/
 def strictGroupRules (fields : List (String × Y)) : List Y :=
